@@ -24,25 +24,12 @@ import (
 // well-formed member (element) list with the separating comma exactly when needed.
 // ---------------------------------------------------------------------------------------------
 
-var vVETable = [256]bool{'"': true, '}': true, ']': true, 'e': true, 'l': true,
-	'0': true, '1': true, '2': true, '3': true, '4': true, '5': true, '6': true, '7': true, '8': true, '9': true}
-
 type vState struct {
 	pre   []byte
 	first bool
 }
 
 func vStrLen() int { return zzverif.Param("strlen", 2) }
-
-func vPrefix(buf []byte) ([]byte, vState) {
-	buf = append(buf[:0], '{')
-	if zzverif.Choice(2) == 1 {
-		x, b := zzverif.Byte(), zzverif.Byte()
-		zzverif.Assume(vVETable[b])
-		buf = append(buf, x, b)
-	}
-	return buf, vState{pre: append([]byte(nil), buf...), first: len(buf) == 1}
-}
 
 var vStackFlag bool
 
@@ -59,14 +46,6 @@ func vCheckEvent(name string, e *Event, st vState, res *Event) {
 	vCheckBuf(name, e.buf, st)
 }
 
-func vCheckBuf(name string, b []byte, st vState) {
-	zzverif.Assert(len(b) >= len(st.pre) && zzverif.EqualBytes(b[:len(st.pre)], st.pre), name+": earlier bytes untouched")
-	zzverif.Observe(name, b)
-	n := vMembers(b, len(st.pre), st.first)
-	zzverif.Assert(n >= 0, name+": appended bytes are well-formed \"key\":value members with correct commas")
-	zzverif.Reach(name)
-}
-
 func vOpenContext() (Context, vState) {
 	l := Logger{w: &vWriter{}, stack: vStackFlag}
 	var st vState
@@ -77,26 +56,6 @@ func vOpenContext() (Context, vState) {
 func vCheckContext(name string, c Context, st vState, res Context) {
 	zzverif.Assert(zzverif.EqualBytes(c.l.context, st.pre), name+": receiver's context bytes unchanged")
 	vCheckBuf(name, res.l.context, st)
-}
-
-func vOpenArray() (*Array, vState) {
-	a := Arr()
-	if zzverif.Choice(2) == 1 {
-		x, b := zzverif.Byte(), zzverif.Byte()
-		zzverif.Assume(vVETable[b])
-		a.buf = append(a.buf, x, b)
-	}
-	return a, vState{pre: append([]byte(nil), a.buf...), first: len(a.buf) == 0}
-}
-
-func vCheckArray(name string, a *Array, st vState, res *Array) {
-	zzverif.Assert(res == a, name+": returns its receiver")
-	b := a.buf
-	zzverif.Assert(len(b) >= len(st.pre) && zzverif.EqualBytes(b[:len(st.pre)], st.pre), name+": earlier bytes untouched")
-	zzverif.Observe(name, b)
-	n := vElements(b, len(st.pre), st.first)
-	zzverif.Assert(n >= 0, name+": appended bytes are well-formed array elements with correct commas")
-	zzverif.Reach(name)
 }
 
 // ---- global settings (symbolic / chosen) ----
@@ -954,7 +913,7 @@ func VH_C01_line() {
 	} else {
 		zzverif.Assert(len(w.calls) == 1, "line: exactly one write per event")
 		zzverif.Observe("line", w.calls[0].buf)
-		zzverif.Assert(vLine(w.calls[0].buf), "line: the written bytes are one JSON object followed by exactly one newline")
+		zzverif.Assert(vEventOK(w.calls[0].buf), "line: the written bytes are exactly one well-formed event (JSON object + newline / CBOR indefinite map)")
 	}
 	zzverif.Reach("C01/line")
 }
